@@ -88,7 +88,14 @@ RICH = [
         {"type": "text", "name": "q", "label": "Q"},
         {"type": "select_one_from_file f.csv", "name": "s1", "label": "S1", "parameters": "value=code label=title"},
         {"type": "select_multiple_from_file g.xml", "name": "s2", "label": "S2", "parameters": "randomize=true seed=4", "choice_filter": "a = ${q}"},
-        {"type": "select_one_from_file h.geojson", "name": "s3", "label": "S3", "parameters": "label=nm"}]},
+        {"type": "select_one_from_file h.geojson", "name": "s3", "label": "S3", "parameters": "label=nm"},
+        # truth values on container rows (a read-only group, a repeat that is not required)
+        {"type": "begin group", "name": "lk", "label": "LK", "read_only": "yes", "required": "no"},
+        {"type": "text", "name": "li", "label": "LI", "required": "yes"},
+        {"type": "end group"},
+        {"type": "begin repeat", "name": "vr", "label": "VR", "read_only": "no", "required": "true()"},
+        {"type": "text", "name": "vi", "label": "VI"},
+        {"type": "end repeat"}]},
 ]
 
 # ---------------------------------------------------------------- transformations ----
